@@ -134,6 +134,16 @@ register("C06",
          "Trusted: Coq kernel; Model/Formula.v hand-written (tied by the text comparison and the value oracle); sqlglot's column extraction gives the dependency set, DuckDB parses/evaluates the expanded text; rows whose reference value involves x/0 (IEEE inf/nan in DuckDB) are outside the fragment. No axioms.",
          "Coq proof (token-level substitution lemma, tree induction) + text-level model/implementation correspondence; formula-over-own-components oracle and metamorphic runs", "DESIGN.md section 6/C06")
 
+register("C20",
+         "Machine-checked Coq theorems for graphs and reference lists of ANY size: validate_query reports every unknown model / metric / graph-level metric / dimension, every unknown granularity, every granularity on a non-time dimension and every unqualified dimension (C20_reject_*); "
+         "every metric reference and EVERY dimension reference -- with or without a granularity suffix -- puts its model into the join check, and two registered query models that no chain of relationships connects are reported (C20_reject_disconnected, over the C10 graph model and its path-search proofs); "
+         "an accepted query resolves all references and only touches joinable models; removing '_cte' recovers the model name from its CTE alias for every name that does not contain '_cte' (C20_cte_inverse), and not otherwise (refuted by witness). "
+         "Model/Valid.v is hand-written and tied by comparing the error kinds of the real validate_query on generated graphs and reference lists; compile() must raise QueryValidationError exactly when errors are reported. "
+         "Partial: 'accepted definitions are usable' is decided by executing every single-field query (12-13 per definition) of generated accepted definitions with adversarial legal names on a table with the declared columns -- an executed check, not a theorem; "
+         "six narrow known-finding classes (K1 _cte in model names, K2 keywords, K3 <measure>_raw dimension, K4 model names needing quotes, K5 fields named like raw columns used by inline expressions / segments, K6 '__' in a dimension name).",
+         "Trusted: Coq kernel; Model/Valid.v hand-written (tied by differential testing), reusing Model/Graph.v; DuckDB decides 'executes without error'; validate_model / validate_metric / pydantic constraints are exercised (registration must not raise for the generated definitions), not modelled. No axioms.",
+         "Coq proof (membership lemmas over the validation function, C10 path-search completeness, string lemma for _cte) + model/implementation correspondence; executed single-field queries", "DESIGN.md section 6/C20")
+
 PENDING = "check not built yet in this revision (see DESIGN.md section 10 build order)"
 
 
